@@ -225,7 +225,7 @@ func fieldAccesses(c *Ctx, units []*bodyUnit, f *types.Var, mutex *types.Var) []
 					if t := info.TypeOf(cl); t != nil {
 						if st, ok := t.Underlying().(*types.Struct); ok {
 							for i := 0; i < st.NumFields(); i++ {
-								if st.Field(i) == f {
+								if st.Field(i).Origin() == f {
 									ctor = true
 								}
 							}
